@@ -94,6 +94,8 @@ def kind_of(v) -> str:
         return "path"
     if isinstance(v, np.ndarray):
         return "ndarray"
+    if is_autoserialize(v):
+        return "autoserialize"  # also when it is an nn.Module at the same time: compared attribute by attribute
     if torch is not None:
         if isinstance(v, torch.nn.Parameter):
             return "parameter"
